@@ -7,6 +7,7 @@ format_hanging_expression_/hang_binop_expression with every layout answer taken 
 arbitrary `Oracle`.  `repaired` is the code after the five `fix:` commits of this round;
 `pinned` is the code before them (kept to show, by computation, that it violated C05).
 -/
+import StyluaModel.Lemmas.Parser
 import StyluaModel.Lemmas.Paren
 
 namespace StyluaModel.C05
@@ -136,6 +137,26 @@ theorem C05_pinned_hang_assert_violates :
     faithful e = true ∧
     faithful (fmtH { ctxThroughDrop := true, hangMinusGuard := true, hangLhsExp := true, hangRhsOperand := false } o .std e) = false := by
   decide
+
+/-- **the printed tokens determine the tree**: two faithful trees with the same printed form are
+the same tree - so whenever StyLua's output (faithful by `C05_single` / `C05_hang`) has the
+tokens of a faithful input apart from parentheses it may drop, no regrouping can hide in it -/
+theorem C05_tokens_determine_tree (e1 e2 : Expr) (h1 : faithful e1 = true) (h2 : faithful e2 = true)
+    (hp : Parser.print e1 = Parser.print e2) : e1 = e2 := by
+  obtain ⟨n1, p1⟩ := ParserLemmas.parse_print e1 h1
+  obtain ⟨n2, p2⟩ := ParserLemmas.parse_print e2 h2
+  have a := p1 (max n1 n2) (by omega)
+  have b := p2 (max n1 n2) (by omega)
+  rw [hp, b] at a
+  exact (Option.some.inj a).symm
+
+/-- **round trip through the parser** for everything the parenthesis rule emits (both paths) -/
+theorem C05_parses_back (o : Oracle) (ctx : Ctx) (p : Pos) (e : Expr) (hd : dropOK ctx p = true)
+    (hf : faithful e = true) (hok : okAt p e = true) :
+    (∃ n, ∀ f, n ≤ f → Parser.parse f (Parser.print (fmtS repaired ctx e)) = some (fmtS repaired ctx e)) ∧
+    (∃ n, ∀ f, n ≤ f → Parser.parse f (Parser.print (fmtH repaired o ctx e)) = some (fmtH repaired o ctx e)) :=
+  ⟨ParserLemmas.parse_print _ (fmtS_good e ctx p hd hf hok).1,
+   ParserLemmas.parse_print _ ((hang_good e).1 o ctx p hd hf hok).1⟩
 
 /-! ## non-vacuity: concrete non-trivial inputs meeting the hypotheses -/
 example : faithful (bin .caret (paren (paren (un .minus (atom 0)))) (call 1)) = true := by decide
